@@ -16,17 +16,20 @@ RULE = ('every XMAP file written by end-to-end runs (ordinary classes with -ms 3
         'coordinates = positions[label-1] of the maps given. Non-trivial = file with >= 1 record that has a reverse, '
         'second-pass, joined or one-pair record, or a header-only file; distinct by content hash of the record lines.')
 ASSUMPTIONS = ['records that violate C01 (label out of range) are skipped for the coordinate clause']
-MINIMUMS = {'files-read': {'quick': 400, 'thorough': 6000}, 'records-compared': {'quick': 2500, 'thorough': 40000},
+MINIMUMS = {'files-with-1000+-records': 1, 'files-read': {'quick': 400, 'thorough': 6000}, 'records-compared': {'quick': 2500, 'thorough': 40000},
             'header-only-files': {'quick': 100, 'thorough': 1500}, 'one-record-files': {'quick': 50, 'thorough': 800},
             'one-pair-records': {'quick': 2, 'thorough': 30}, 'second-pass-records': {'quick': 300, 'thorough': 5000}}
 
 
 def plan(tier, seed):
     n, c = (16, 22) if tier == 'quick' else (64, 80)
-    return [{'name': 's%d' % i, 'kind': 'e2e', 'seed': seed, 'shard': i, 'cases': c} for i in range(n)]
+    return [{'name': 'big', 'kind': 'e2e', 'seed': seed, 'shard': 999, 'cases': 1, 'big': 1010 if tier == 'quick' else 5100}] + \
+        [{'name': 's%d' % i, 'kind': 'e2e', 'seed': seed, 'shard': i, 'cases': c} for i in range(n)]
 
 
-def make_case(rng):
+def make_case(rng, big=0):
+    if big:
+        return gen.big_file_case(rng, big)
     x = rng.random()
     if x < 0.35:
         case = c07.make_case(rng)
@@ -43,7 +46,7 @@ def judge(case, wd, sh):
     from src.parsers.cmap_reader import CmapReader
     from src.parsers.xmap_reader import XmapReader
     from src.parsers.xmap_alignment_pair_parser import XmapAlignmentPairWithDistanceParser
-    run = pipeline.run_inprocess(case, wd, serial=True)
+    run = pipeline.run_inprocess(case, wd, serial=not case.get('pool'), cpus=8 if case.get('pool') else 1)
     sh.evaluations += 1
     if run.error:
         sh.count('aborted-runs')
@@ -65,6 +68,8 @@ def judge(case, wd, sh):
             sh.count('header-only-files')
         if len(recs) == 1:
             sh.count('one-record-files')
+        if len(recs) > 1000:
+            sh.count('files-with-1000+-records')
         joined = suf == '' and case['mode'] in ('joined', 'all')
         if not recs or any(r['ori'] == '-' or r['rest'] == 'True' or len(r['aln']) == 1 for r in recs) or joined:
             sh.nt([suf, text.record_lines(txt)])
@@ -79,6 +84,18 @@ def judge(case, wd, sh):
             if len(al) != len(recs):
                 sh.violation('alignment-count-differs', 'file %r: %d alignments read for %d records (%s parser)' % (suf, len(al), len(recs), which), slim())
                 continue
+            if which == 'default' and recs:
+                # selecting by XmapEntryID returns exactly the record with that id
+                for pick in sorted({recs[0]['id'], recs[len(recs) // 2]['id'], recs[-1]['id']}):
+                    try:
+                        one = rd.readAlignments(io.StringIO(txt), alignmentIds=[pick])
+                        sh.count('id-selections')
+                        if len(one) != 1 or one[0].alignmentId != pick:
+                            sh.violation('select-by-XmapEntryID', 'file %r: readAlignments(alignmentIds=[%d]) returned %d alignment(s)' % (suf, pick, len(one)), slim())
+                            break
+                    except BaseException as ex:
+                        sh.violation('reader-raises-on-id-selection:' + type(ex).__name__, 'file %r: %r' % (suf, ex), slim())
+                        break
             for a, r in zip(al, recs):
                 sh.count('records-compared')
                 if which == 'default':
@@ -121,7 +138,7 @@ def run_shard(spec):
     sh = Shard()
     for i in range(spec['cases']):
         rng = rng_for('C18', spec['seed'], spec['shard'], i)
-        case = make_case(rng)
+        case = make_case(rng, spec.get('big', 0) if i == 0 else 0)
         case['gen'] = [spec['seed'], spec['shard'], i]
         core.isolated(judge, sh, case, spec['workdir'])
     return sh
